@@ -56,6 +56,7 @@ def apply_history(rng, h, f, steps=None):
                 # too few windows left for statistics: put a well-formed selection back
                 h.valid_window_boolean_mask = np.ones(k, dtype=bool)
                 h.valid_peak_boolean_mask = np.ones(k, dtype=bool)
+                hist.append((name + " left fewer than three windows: all accepted again",))
                 continue
             hist.append((name, sel.astype(int).tolist()))
             h._expected_selection = sel
